@@ -223,8 +223,28 @@ def register_filehasher_next(reg):
           ("C03", "padding_entry_describes_exactly_the_zero_extension",
            "implies(self.hybrid and self.pad and len(D) < self.piece_length, self.padding_file['length'] == self.piece_length - len(D) "
            "and self.padding_file['attr'] == 'p')"),
+          ("C02", "end_is_set_exactly_when_a_read_came_back_empty", "self.end == (len(leaves(D)) < self.amount)"),
+          ("C02", "the_piece_root_is_appended", "implies(not self.end, self.layer_hashes == cat(old(self.layer_hashes), [layer_hash]))"),
+          ("C02", "at_the_end_the_root_is_computed_over_the_padded_piece_layer",
+           "implies(self.end, self.root == mroot(self.layer_hashes) and is_pow2(len(self.layer_hashes)) and "
+           "self.layer_hashes == cat(cat(old(self.layer_hashes), [layer_hash]), repeat_digest(mroot(zero_digests(self.amount)), "
+           "len(self.layer_hashes) - len(old(self.layer_hashes)) - 1)) and len(old(self.layer_hashes)) + 1 <= len(self.layer_hashes) and "
+           "(len(self.layer_hashes) < 2 * (len(old(self.layer_hashes)) + 1) or len(self.layer_hashes) == 1) and "
+           "self.piece_layer == bytes_join(cat(old(self.layer_hashes), [layer_hash])))"),
       ],
-      raises={"StopIteration": {}},
+      raises={"StopIteration": {"modifies": ["self.current", "self.layer_hashes", "self.end", "self.root", "self.piece_layer"], "ensures": [
+          ("C02", "second_stop_after_the_end_changes_nothing_else",
+           "implies(old(self.end), not self.end and self.layer_hashes == old(self.layer_hashes) and self.root == old(self.root) and "
+           "self.piece_layer == old(self.piece_layer))"),
+          ("C02", "a_first_stop_happens_only_at_end_of_file", "implies(not old(self.end), old(file_tail(self.current)) == b'')"),
+          ("C02", "stop_at_end_of_file_computes_the_root_over_the_padded_piece_layer",
+           "implies(not old(self.end) and len(old(self.layer_hashes)) >= 1, old(file_tail(self.current)) == b'' and "
+           "self.root == mroot(self.layer_hashes) and is_pow2(len(self.layer_hashes)) and "
+           "self.layer_hashes == cat(old(self.layer_hashes), repeat_digest(mroot(zero_digests(self.amount)), len(self.layer_hashes) - len(old(self.layer_hashes)))) and "
+           "len(old(self.layer_hashes)) <= len(self.layer_hashes) and "
+           "(len(self.layer_hashes) < 2 * len(old(self.layer_hashes)) or len(self.layer_hashes) == 1) and "
+           "self.piece_layer == bytes_join(old(self.layer_hashes)))"),
+      ]}},
       loops={0: {"index": "_i0",
                  "ghost_init": {"D": "b''"},
                  "ghost_step": {"D": "D + last_read()"},
@@ -314,6 +334,7 @@ def register_hasher_v2(reg):
     C("torrentfile.hasher.HasherV2.process_file",
       props=["C02", "C10"],
       params={"self": HV2, "fd": "file"},
+      fork_checks=True,
       merge_ifs=False,
       shards=6,
       requires=["self.piece_length >= 16384 and is_pow2(self.piece_length)", "self.num_blocks * 16384 == self.piece_length",
@@ -368,6 +389,7 @@ def register_hasher_hybrid(reg):
     C("torrentfile.hasher.HasherHybrid.process_file",
       props=["C02", "C03", "C10"],
       params={"self": HHY, "data": "file"},
+      fork_checks=True,
       exists={"np": "int"},
       merge_ifs=False,
       shards=6,
